@@ -205,6 +205,32 @@ def reactor_yaml(run, repo):
             extra = [p_ for p_, v_ in leaves(data) if p_ != REACTOR_OPTS[subset[0]][0] + (REACTOR_OPTS[subset[0]][1],)]
             run.check(not extra, 'DATAFLOW.nothing-else', 'io.omkm.write_yaml', 'option:' + subset[0],
                       '[%s] the reactor file also contains %s' % (label, extra), m, fn)
+    # no unit system given (documented: the values are then taken to be SI): every option that carries a unit, alone,
+    # as a number and as text with its own unit, is written as it is
+    for k in [k_ for k_, v_ in REACTOR_OPTS.items() if v_[2] is not None]:
+        path, lab, unit = REACTOR_OPTS[k]
+        for kind in ('number', 'text'):
+            I = new_interp(repo, order=RankOrder({'v_' + k: 1}, const_ranks=True))
+            val = I.D.sym('v_' + k) if kind == 'number' else '7 own_unit'
+            r = I.call_function(m, fn, [], {k: val, 'phases': DictV()})
+            got = None
+            if not isinstance(r, Raised) and I.dumps:
+                cur = I.dumps[-1]
+                for p_ in path:
+                    cur = cur.d.get(p_) if isinstance(cur, DictV) else None
+                got = cur.d.get(lab) if isinstance(cur, DictV) else None
+            if kind == 'number':
+                ok = isinstance(got, Rat) and got.eq(val)
+            else:
+                sg = I.seg(got) if isinstance(got, (str, SegStr)) else None
+                ok = sg is not None and sg.is_literal() and sg.literal().strip().strip('"\'').strip() == val
+            run.check(ok, 'DATAFLOW.unit', 'io.omkm.write_yaml', 'option:%s as %s, no unit system' % (k, kind),
+                      'write_yaml(%s=%s) without units= %s; expected the value under %s/%s as it was given (SI is '
+                      'assumed when no unit system is named)'
+                      % (k, show(val, 30), 'raises %s' % r.exc if isinstance(r, Raised) else 'writes %s' % show(got, 60),
+                         '/'.join(path), lab), m, fn,
+                      sample='write_yaml(%s=v) without units -> %s/%s = v' % (k, '/'.join(path), lab)
+                      if kind == 'number' and k == 'V' else None)
     # every option that carries a unit, given as text in a unit of the user's choice (documented: "<value> <unit>"),
     # next to a unit system that would say otherwise: the text is the value, the unit system adds nothing
     own = {'V': '10 cm3', 'A': '3 mm2', 'L': '2 mm', 'cat_abyv': '5 /mm', 'P': '1 atm', 'residence_time': '4 min',
@@ -293,6 +319,50 @@ def reactor_collections(run, repo):
                   '[%s] simulation/multi_input must list every temperature, every pressure in bar and every flow rate '
                   'in cm3/s, in order: got %s / %s / %s' % (label, show(gt, 80), show(gp, 120), show(gq, 120)), m, fn,
                   sample='write_yaml(multi_T, multi_P, multi_flow_rate as %s) -> simulation/multi_input' % form)
+    # ---- series given as text with the user's own units (documented: list of float/str), and mixed with numbers:
+    # text stays as the user wrote it, numbers get the unit of the unit system
+    def as_text(I, got):
+        sg = I.seg(got) if isinstance(got, (str, SegStr)) else None
+        return sg.literal().strip().strip('"\'').strip() if sg is not None and sg.is_literal() else None
+    for form in ('list',):
+        I = new_interp(repo, order=RankOrder({}, const_ranks=True, fallback=lambda a_: 1))
+        D = I.D
+        u = units_obj(I, repo)
+        mP = ListV(['1 atm', '2 atm', '250 kPa'])
+        mQ = ListV(['1 m3/h', D.sym('Q1'), '3 L/min'])
+        mQ2 = ListV([D.sym('R0'), '2 L/min'])
+        r = I.call_function(m, fn, [], {'units': u, 'phases': DictV(), 'multi_P': mP, 'multi_flow_rate': mQ})
+        label = 'series given as text'
+        if isinstance(r, Raised) or not I.dumps:
+            run.fail('DATAFLOW.unit', 'io.omkm.write_yaml', label, 'raises %s / nothing dumped' % show(r), m, fn)
+            continue
+        data = I.dumps[-1]
+        mi = at(data, 'simulation', 'multi_input')
+        gp, gq = (at(mi, k_) if isinstance(mi, DictV) else None for k_ in ('pressure', 'flow_rate'))
+        okp = isinstance(gp, ListV) and [as_text(I, x) for x in gp.items] == list(mP.items)
+        okq = isinstance(gq, ListV) and len(gq) == 3 and as_text(I, gq.items[0]) == '1 m3/h' and \
+            quantity(I, gq.items[1], D.sym('Q1'), 'cm3/s') and as_text(I, gq.items[2]) == '3 L/min'
+        run.check(okp and okq, 'DATAFLOW.unit', 'io.omkm.write_yaml', label + ': multi_input',
+                  '[%s] multi_P=%s and multi_flow_rate=[1 m3/h, Q1, 3 L/min] must be listed entry by entry, text as '
+                  'the user wrote it and the number as "Q1 cm3/s": got %s / %s'
+                  % (label, list(mP.items), show(gp, 160), show(gq, 200)), m, fn,
+                  sample='write_yaml(multi_P=[text...], multi_flow_rate=[text, number, text]) -> multi_input')
+        run.check(as_text(I, at(data, 'reactor', 'pressure')) == '1 atm' and
+                  as_text(I, at(data, 'inlet_gas', 'flow_rate')) == '1 m3/h', 'DATAFLOW.unit', 'io.omkm.write_yaml',
+                  label + ': operating point',
+                  '[%s] reactor pressure and inlet flow rate are the first entries of the series, as the user wrote '
+                  'them: got %s and %s' % (label, show(at(data, 'reactor', 'pressure'), 60),
+                                           show(at(data, 'inlet_gas', 'flow_rate'), 60)), m, fn)
+        # a series that starts with a number and goes on with text
+        I.dumps.clear()
+        r = I.call_function(m, fn, [], {'units': u, 'phases': DictV(), 'multi_flow_rate': mQ2})
+        gq = at(I.dumps[-1], 'simulation', 'multi_input', 'flow_rate') if I.dumps and not isinstance(r, Raised) else None
+        run.check(isinstance(gq, ListV) and len(gq) == 2 and quantity(I, gq.items[0], D.sym('R0'), 'cm3/s') and
+                  as_text(I, gq.items[1]) == '2 L/min' and
+                  quantity(I, at(I.dumps[-1], 'inlet_gas', 'flow_rate'), D.sym('R0'), 'cm3/s'), 'DATAFLOW.unit',
+                  'io.omkm.write_yaml', label + ': number first',
+                  '[%s] multi_flow_rate=[R0, 2 L/min] must give ["R0 cm3/s", "2 L/min"] and the inlet flow rate '
+                  '"R0 cm3/s": got %s' % (label, show(gq if gq is not None else r, 160)), m, fn)
     # ---- sensitivity lists: identifiers given as text or as objects
     I = new_interp(repo)
     u = units_obj(I, repo)
@@ -522,19 +592,35 @@ def file_assembly(run, repo):
         # the temperature the file is written for is the temperature every reaction is evaluated at (its barrier is
         # a Gibbs energy): the reaction emitters are handed exactly the writer's T
         I = new_interp(repo)
-        Tw = I.D.sym('T_file')
+        Tw, Pw = I.D.sym('T_file'), I.D.sym('P_file')
         rx3 = [marker_obj(I, 'rxn%d' % i, id=None, bep=None) for i in range(2)]
-        seen_T = []
+        seen3 = []
         for r3 in rx3:
             for meth in ('to_cti', 'to_omkm_yaml'):
                 def emit3(I_, obj, a_, k_, f_=r3.opaque_methods[meth]):
-                    seen_T.append(k_.get('T', a_[0] if a_ else None))
+                    seen3.append((k_.get('T', a_[0] if a_ else None), k_.get('P', a_[1] if len(a_) > 1 else None),
+                                  k_.get('ads_act_method')))
                     return f_(I_, obj, a_, k_)
                 r3.opaque_methods[meth] = emit3
                 # the documented signature of the reaction emitters
                 r3.opaque_params[meth] = ('T', 'P', 'quantity_unit', 'length_unit', 'act_energy_unit',
                                           'ads_act_method', 'units')
-        out3 = I.call_function(m, fn, [], {'reactions': ListV(rx3), 'T': Tw, 'units': units_obj(I, repo)})
+        # a reaction-like object whose emitter takes the unit system and the temperature only: the writers hand an
+        # emitter the arguments it accepts, so it is written like the others
+        plain3 = marker_obj(I, 'rxn_plain', id=None, bep=None)
+        for meth in ('to_cti', 'to_omkm_yaml'):
+            def strict3(I_, obj, a_, k_, f_=plain3.opaque_methods[meth], meth=meth):
+                # def to_cti(self, units=None, T=...): Python refuses any other keyword
+                if a_ or any(k__ not in obj.opaque_params[meth] for k__ in k_):
+                    from ..xlate import _RaisedExc
+                    raise _RaisedExc(Raised('TypeError'))
+                return f_(I_, obj, a_, k_)
+            plain3.opaque_methods[meth] = strict3
+        out3 = I.call_function(m, fn, [], {'reactions': ListV(rx3), 'T': Tw, 'P': Pw,
+                                           'ads_act_method': 'get_G_act', 'units': units_obj(I, repo)})
+        out3p = I.call_function(m, fn, [], {'reactions': ListV([plain3]), 'T': Tw, 'P': Pw,
+                                            'ads_act_method': 'get_G_act', 'units': units_obj(I, repo)})
+        seen_T = [x_[0] for x_ in seen3]
         run.check(not isinstance(out3, Raised) and len(seen_T) == 2 and
                   all(isinstance(t_, Rat) and t_.eq(Tw) for t_ in seen_T), 'DATAFLOW.option', 'io.omkm.' + writer,
                   'T reaches the reactions',
@@ -542,6 +628,31 @@ def file_assembly(run, repo):
                   'activation energies in the file belong to the temperature the user asked for)'
                   % (writer, show(out3, 60) if isinstance(out3, Raised) else [show(t_, 30) for t_ in seen_T]), m, fn,
                   sample='%s(T=T_file) -> every reaction emitter receives T=T_file' % writer)
+
+        def is_P(p_):
+            # the writer's pressure, in whatever pressure unit the writer hands on (a constant factor)
+            if not isinstance(p_, Rat) or p_.iszero():
+                return False
+            ratio = p_ / Pw
+            return ratio.is_const() and not ratio.iszero()
+        run.check(not isinstance(out3, Raised) and len(seen3) == 2 and all(is_P(x_[1]) for x_ in seen3),
+                  'DATAFLOW.option', 'io.omkm.' + writer, 'P reaches the reactions',
+                  '%s(reactions=[r0, r1], P=P_file): the reactions are emitted for P=%s, expected P_file (times a '
+                  'constant when the unit changes) for each: the barrier of a step with gas species depends on it'
+                  % (writer, show(out3, 60) if isinstance(out3, Raised) else [show(x_[1], 30) for x_ in seen3]), m, fn,
+                  sample='%s(P=P_file) -> every reaction emitter receives P=P_file' % writer)
+        run.check(not isinstance(out3, Raised) and len(seen3) == 2 and
+                  all(x_[2] is not None and I.plain(x_[2]) == 'get_G_act' for x_ in seen3),
+                  'DATAFLOW.option', 'io.omkm.' + writer, 'ads_act_method reaches the reactions',
+                  '%s(reactions=[r0, r1], ads_act_method=get_G_act): the reactions are emitted with ads_act_method=%s'
+                  % (writer, show(out3, 60) if isinstance(out3, Raised) else [show(x_[2], 30) for x_ in seen3]), m, fn)
+        kind3 = 'cti' if writer == 'write_cti' else 'yaml'
+        run.check(not isinstance(out3p, Raised) and [c_[0] for c_ in plain3.calls] == [kind3], 'DATAFLOW.once',
+                  'io.omkm.' + writer, 'emitter that takes units and T only',
+                  '%s with a reaction whose emitter accepts only units and T next to P and ads_act_method: %s; it must '
+                  'be written once like the others (the writers pass an emitter the arguments it accepts)'
+                  % (writer, 'raises %s' % out3p.exc if isinstance(out3p, Raised)
+                     else 'emitted %d time(s)' % len(plain3.calls)), m, fn)
         # omitted collections: no crash
         I = new_interp(repo)
         out = I.call_function(m, fn, [], {})
@@ -819,7 +930,22 @@ def check(run, repo):
         'phase constructor exactly its species, every reaction one of its species takes part in (whatever the order of '
         'the species in the reaction) and the interactions of its species; (e) the species, phase, reaction, BEP and '
         'interaction emitters are interpreted over abstract strings / dictionaries and every coefficient, bound, name '
-        'and converted quantity is compared with the object (see emitters).')
+        'and converted quantity is compared with the object (see emitters). Added after the white-box review: a value '
+        'given as text (scalar options) is written as the user wrote it and a NumPy number gets the unit like a Python '
+        'number; the unit system declared at the head of both files is the chosen one, keyword by keyword; both thermo '
+        'writers hand their T to every reaction; a sequence of extend/append/remove/pop on a phase that already has '
+        'species, with a second phase filled in between; phases with 17 species (list broken over several lines), phase '
+        'names next to a different note, adjacent phases given as objects; reactions with an explicit transition state '
+        'and with a BEP relation as transition state (equation without it, barrier = max(0, change to the transition '
+        'state, change to the products) * R T built from the species, not from the reaction class), pre-exponential '
+        'factor against kB/h / (summed site density in quantity/length^2)^(n_surf-1) in three unit systems, '
+        'ads_act_method; both member lists of a BEP relation in its YAML entry. Armed after the five defects of the '
+        'review were fixed in pMuTT: interaction strengths in the YAML entry are the slopes converted kcal/mol -> the '
+        'requested energy/quantity unit in three unit systems (next to the CTI directive); the site occupancy of every '
+        'species class is a plain number; without a unit system every unit-carrying reactor option alone is written as '
+        'given; series given as text, or as text mixed with numbers, keep the text and give the numbers the unit; the '
+        'thermo writers hand every reaction their P (up to a constant factor) and ads_act_method, and an emitter that '
+        'accepts neither is still written.')
     run.assumptions = ['yaml.dump is an uninterpreted serialiser that receives the data checked here',
                        'Python evaluates default argument values once (modelled: defaults are shared between calls)']
     run.undecided = ['that the YAML loads and the CTI parses (PyYAML / Cantera behaviour, quote stripping by '
@@ -834,7 +960,7 @@ def check(run, repo):
     organize(run, repo)
     from .c07b import emitters
     emitters(run, repo)
-    run.floor('C07 obligations', run.obligations, 120)
+    run.floor('C07 obligations', run.obligations, 250)
 
 
 O_ = 'pmutt/io/omkm.py'
@@ -863,19 +989,7 @@ MUTANTS = [
     {'name': 'volume written with the area unit', 'expect': ('DATAFLOW.reactor', 'write_yaml'),
      'edits': [(O_, "_Param('volume', V, '_length3')", "_Param('volume', V, '_length2')")]},
     {'name': 'reaction emitted before it gets its id', 'expect': ('', 'write_cti'),
-     'edits': [(O_, """            if reaction.id is None:
-                reaction.id = 'r_{:04d}'.format(i)
-                i += 1
-            # Write reaction
-            reaction_CTI = _force_pass_arguments(reaction.to_cti,
-                                                 units=units,
-                                                 T=T)""", """            # Write reaction
-            reaction_CTI = _force_pass_arguments(reaction.to_cti,
-                                                 units=units,
-                                                 T=T)
-            if reaction.id is None:
-                reaction.id = 'r_{:04d}'.format(i)
-                i += 1""")]},
+     'edits': [(O_, "            if reaction.id is None:\n                reaction.id = 'r_{:04d}'.format(i)\n                i += 1\n            # Write reaction\n            reaction_CTI = _force_pass_arguments(reaction.to_cti, units=units,\n                                                 T=T, P=P,\n                                                 ads_act_method=ads_act_method)", "            # Write reaction\n            reaction_CTI = _force_pass_arguments(reaction.to_cti, units=units,\n                                                 T=T, P=P,\n                                                 ads_act_method=ads_act_method)\n            if reaction.id is None:\n                reaction.id = 'r_{:04d}'.format(i)\n                i += 1")]},
     {'name': 'site density divided twice', 'expect': ('DIM.site-density', 'InteractingInterface.to_omkm_yaml'),
      'edits': [('pmutt/omkm/phase.py', "        site_den = self.site_density\\\n                   *c.convert_unit(initial='mol', final=quantity_unit)\\\n                   /c.convert_unit(initial='cm2', final=area_unit)\n        site_den_param",
                 "        site_den = self.site_density\\\n                   *c.convert_unit(initial='mol', final=quantity_unit)\\\n                   *c.convert_unit(initial='cm2', final=area_unit)\n        site_den_param")]},
@@ -883,5 +997,51 @@ MUTANTS = [
      'edits': [('pmutt/empirical/nasa.py', "self.a_low[4], self.a_low[5], self.a_low[6], self.T_mid,", "self.a_low[4], self.a_low[6], self.a_low[5], self.T_mid,")]},
     {'name': 'extend_species forgets to point species at the phase', 'expect': ('EFFECT.membership', ''),
      'edits': [('pmutt/cantera/phase.py', "        for i in range(len(val)):\n            val[i].phase = self\n        self._species.extend(val)", "        self._species.extend(val)")]},
+    # instances added after the white-box review (whitebox/C07.md)
+    {'name': 'YAML equation of a step keeps its transition state', 'expect': ('DATAFLOW.reaction', 'SurfaceReaction.to_omkm_yaml'),
+     'edits': [('pmutt/omkm/reaction.py', "                                               reaction_delimiter=' <=> ',\\\n                                               include_TS=False)", "                                               reaction_delimiter=' <=> ')")]},
+    {'name': 'CTI equation of a step keeps its transition state', 'expect': ('DATAFLOW.reaction', 'SurfaceReaction.to_cti'),
+     'edits': [('pmutt/omkm/reaction.py', "                                      reaction_delimiter=' <=> ',\\\n                                      include_TS=False)", "                                      reaction_delimiter=' <=> ')")]},
+    {'name': 'BEP YAML entry lists the cleavage reactions as synthesis reactions', 'expect': ('DATAFLOW.bep', 'BEP.to_omkm_yaml'),
+     'edits': [('pmutt/omkm/reaction.py', "            synthesis_reactions = _get_omkm_range(objs=self.synthesis_reactions,\n                                                  parent_obj=self,\n                                                  format='list')", "            synthesis_reactions = _get_omkm_range(objs=self.cleavage_reactions,\n                                                  parent_obj=self,\n                                                  format='list')")]},
+    {'name': 'extend_species replaces the species of the phase', 'expect': ('EFFECT.membership', ''),
+     'edits': [('pmutt/cantera/phase.py', "        for i in range(len(val)):\n            val[i].phase = self\n        self._species.extend(val)", "        self.species = list(val)")]},
+    {'name': 'text with its own unit gets the unit of the unit system appended', 'expect': ('DATAFLOW.unit', 'write_yaml'),
+     'edits': [('pmutt/omkm/__init__.py', '    if isinstance(param.val, numbers.Number):', '    if isinstance(param.val, (numbers.Number, str)):')]},
+    {'name': 'units directive swaps energy and activation energy', 'expect': ('DATAFLOW.units', 'write_cti'),
+     'edits': [('pmutt/cantera/units.py', "                self.length, self.time, self.quantity, self.energy,\n                self.act_energy, self.pressure, self.mass)", "                self.length, self.time, self.quantity, self.act_energy,\n                self.energy, self.pressure, self.mass)")]},
+    {'name': 'units section declares the energy unit as activation energy', 'expect': ('DATAFLOW.units', 'write_thermo_yaml'),
+     'edits': [('pmutt/cantera/units.py', "                'activation-energy': self.act_energy,", "                'activation-energy': self.energy,")]},
+    {'name': 'species list over several lines drops the entry that starts a line', 'expect': ('DATAFLOW.phase', '.to_cti'),
+     'edits': [('pmutt/io/cantera.py', "                    cti_lines.append('{}{}'.format(header_spaces, cti_val))", "                    cti_lines.append(header_spaces)")]},
+    {'name': 'pre-exponential factor forgets mol -> quantity unit', 'expect': ('DATAFLOW.reaction', 'SurfaceReaction.to_'),
+     'edits': [('pmutt/omkm/reaction.py', "            eff_site_den = eff_site_den\\\n                        *c.convert_unit(initial='mol', final=quantity_unit)\\\n                        /c.convert_unit(initial='cm2', final=area_unit)", "            eff_site_den = eff_site_den\\\n                        /c.convert_unit(initial='cm2', final=area_unit)")]},
+    {'name': 'pre-exponential factor: site density to the power n_surf', 'expect': ('DATAFLOW.reaction', 'SurfaceReaction.to_'),
+     'edits': [('pmutt/omkm/reaction.py', 'A = A / eff_site_den**(n_surf - 1)', 'A = A / eff_site_den**(n_surf)')]},
+    {'name': 'barrier of a surface step from the enthalpy', 'expect': ('DATAFLOW.reaction', 'SurfaceReaction.to_omkm_yaml'),
+     'edits': [('pmutt/omkm/reaction.py', "                act_val = self.get_G_act(units=act_energy_unit, T=T, P=P)\n\n        # Assign activation energy, beta", "                act_val = self.get_H_act(units=act_energy_unit, T=T, P=P)\n\n        # Assign activation energy, beta")]},
+    {'name': 'interface YAML entry named by its note', 'expect': ('DATAFLOW.phase', 'InteractingInterface.to_omkm_yaml'),
+     'edits': [('pmutt/omkm/phase.py', "            'name': self.name,\n            'elements': list(self.elements),\n            'species': species_names,\n            'kinetics': 'surface',", "            'name': self.note,\n            'elements': list(self.elements),\n            'species': species_names,\n            'kinetics': 'surface',")]},
+    {'name': 'adjacent phase objects named by the interface itself', 'expect': ('DATAFLOW.phase', 'InteractingInterface.to_cti'),
+     'edits': [('pmutt/omkm/phase.py', "                phases_names.append(phase.name)", "                phases_names.append(self.name)")]},
+    {'name': 'NumPy numbers written without the unit', 'expect': ('', 'write_yaml'),
+     'edits': [('pmutt/omkm/__init__.py', "        val_str = '\\\"{} {}\\\"'.format(param.val, param.units)", "        val_str = '\\\"{} {}\\\"'.format(param.val, param.units if isinstance(param.val, (int, float)) else '')")]},
+    # the five defects of the review (DEFECT_C07.md), fixed in pMuTT: each fix reverted, plus the instances around them
+    {'name': 'revert b1bdf71: Shomate site occupancy as a one-element tuple', 'expect': ('SLOT.yaml', 'Shomate.to_omkm_yaml'),
+     'edits': [('pmutt/empirical/shomate.py', "            yaml_dict['sites'] = self.n_sites\n", "            yaml_dict['sites'] = self.n_sites,\n")]},
+    {'name': 'revert 49f59b0: interaction strengths written unconverted', 'expect': ('DIM.strength', 'PiecewiseCovEffect.to_omkm_yaml'),
+     'edits': [('pmutt/mixture/cov.py', "        slopes = [c.convert_unit(slope, initial='kcal/mol', final=final) \\\n                  for slope in self.slopes]\n        strength_param = _Param('strength', slopes, final)", "        strength_param = _Param('strength', self.slopes, final)")]},
+    {'name': 'revert 114c759: no unit system given, unit-carrying option raises', 'expect': ('DATAFLOW.unit', 'write_yaml'),
+     'edits': [('pmutt/omkm/__init__.py', '    # Assume SI units if units is not specified\n    if units is None:', '    # Assume SI units if units is not specified\n    if param.units is None:')]},
+    {'name': 'revert 0f47d41: series given as text get a second unit', 'expect': ('DATAFLOW.unit', 'write_yaml'),
+     'edits': [('pmutt/omkm/__init__.py', '        vals_list = []\n        for val in param.val:\n            # An entry given as a string already carries its units\n            if isinstance(val, str):\n                vals_list.append(\'\\"{}\\"\'.format(val))\n                continue\n            val_str = \'\\"{} {}\\"\'.format(val, param.units)\n            for unit_type, unit in units.__dict__.items():\n                val_str = val_str.replace(\'_{}\'.format(unit_type), unit)\n            vals_list.append(val_str)\n', '        vals_list = [\'\\"{} {}\\"\'.format(i, param.units) for i in param.val]\n        for unit_type, unit in units.__dict__.items():\n            old_str = \'_{}\'.format(unit_type)\n            for i, val in enumerate(vals_list):\n                vals_list[i] = val.replace(old_str, unit)\n')]},
+    {'name': 'revert 23fa5a9: P and ads_act_method not handed to the reactions', 'expect': ('DATAFLOW.option', 'io.omkm.write_'),
+     'edits': [(O_, '            reaction_CTI = _force_pass_arguments(reaction.to_cti, units=units,\n                                                 T=T, P=P,\n                                                 ads_act_method=ads_act_method)', '            reaction_CTI = _force_pass_arguments(reaction.to_cti, units=units,\n                                                 T=T)'), (O_, '            reaction_dict = _force_pass_arguments(\n                    reaction.to_omkm_yaml, units=units, T=T, P=P,\n                    ads_act_method=ads_act_method)', '            reaction_dict = reaction.to_omkm_yaml(units=units, T=T)')]},
+    {'name': 'thermo YAML hands every reaction all its options whether the emitter takes them or not', 'expect': ('DATAFLOW.once', 'write_thermo_yaml'),
+     'edits': [(O_, '            reaction_dict = _force_pass_arguments(\n                    reaction.to_omkm_yaml, units=units, T=T, P=P,\n                    ads_act_method=ads_act_method)', '            reaction_dict = reaction.to_omkm_yaml(units=units, T=T, P=P,\n                                                  ads_act_method=ads_act_method)')]},
+    {'name': 'thermo YAML evaluates the reactions at the default temperature', 'expect': ('DATAFLOW.option', 'write_thermo_yaml'),
+     'edits': [(O_, '                    reaction.to_omkm_yaml, units=units, T=T, P=P,', '                    reaction.to_omkm_yaml, units=units, P=P,')]},
+    {'name': 'CTI evaluates the reactions at the default temperature', 'expect': ('DATAFLOW.option', 'write_cti'),
+     'edits': [(O_, '                                                 T=T, P=P,\n                                                 ads_act_method=ads_act_method)\n            reaction_lines', '                                                 P=P,\n                                                 ads_act_method=ads_act_method)\n            reaction_lines')]},
 ]
 EQUIV = []
